@@ -837,6 +837,7 @@ int parse_instruction_thumb(AsmContext *asm_context, char *instr)
             add_bin16(asm_context, table_thumb[n].opcode | (operands[1].value << 3) | operands[0].value, IS_OPCODE);
             return 2;
           }
+          break;
         case OP_UINT8:
           if (operand_count == 1 && operands[0].type == OPERAND_NUMBER)
           {
